@@ -77,6 +77,7 @@ class Ctx:
         self.ghost = {}
         self.axioms_used = set()
         self.muted = 0
+        self.replay_stack = []
 
     def mute(self):
         """Context manager: obligations / events emitted while building SPEC terms are discarded."""
@@ -148,6 +149,14 @@ class Ctx:
             return True
         if z3.is_false(cond):
             return False
+        if self.replay_stack:
+            # pure re-evaluation of a closure body at another index: follow the decisions of the Skolem evaluation
+            rp = self.replay_stack[-1]
+            if rp["pos"] < len(rp["decs"]):
+                d = rp["decs"][rp["pos"]]
+                rp["pos"] += 1
+                return d
+            raise Unsupported("closure body branches differently at another index")
         if self.pos < len(self.decisions):
             d = self.decisions[self.pos]
             self.pos += 1
